@@ -1,5 +1,5 @@
 """Texts for MANIFEST.json (level claimed, trusted base, technique) per property."""
-HOOK_COMMITS = ['d35aa08', 'bbc29c7']
+HOOK_COMMITS = ['d35aa08', 'bbc29c7', '7a9731c']
 NOTES = ("Technique: machine-checked proof in Lean 4 about hand-written models of the contract code; the models are tied to "
          "/repo's working tree on every run by a correspondence check (contracts recompiled from the tree, executed on neo-go's VM, "
          "compared line by line with the models' executable definitions) and by facts regenerated from the sources. "
